@@ -29,6 +29,13 @@ def step (s : St) (toks : List String) : St × List String :=
       let s' := if s.length ≤ i then s ++ List.replicate (i + 1 - s.length) ({ loLevel := false }, { out := false }) else s
       (s'.set i ({ loLevel := lo == "1" }, { out := out == "1" }), [])
     | none => (s, ["BADOP"])
+  | ["rswitch", i, st, ty, h] =>
+    match i.toNat?, ty.toNat?, h.toNat? with
+    | some i, some ty, some h =>
+      match s[i]? with
+      | some (c, rs) => (s, [s!"RSW {switchHi (st == "1") ty h (rs.logical c)}"])
+      | none => (s, ["NORELAY"])
+    | _, _, _ => (s, ["BADOP"])
   | ["hi", i, h] =>
     match i.toNat?, h.toNat? with
     | some i, some h => apply s i (.local h)
